@@ -97,7 +97,14 @@ func BuildOverlay(repoDir, verifDir string, withTests bool, dirs ...string) (map
 			ov[filepath.Join(rd, "zz_verif_oracle.go")] = []byte(src)
 		}
 		if withTests {
-			ov[filepath.Join(rd, "zz_verif_replay_test.go")] = []byte(strings.Replace(replayTestSrc, "PKGNAME", pkgNames[d], 1))
+			hook := "func vKernelHook() {}\n"
+			if d == "root" {
+				hook = "func vKernelHook() { vKernelMain() }\n"
+			}
+			ov[filepath.Join(rd, "zz_verif_replay_test.go")] = []byte(strings.Replace(replayTestSrc, "PKGNAME", pkgNames[d], 1) + hook)
+			if NoBoundaryRewrite {
+				continue
+			}
 			// boundary files: the current source with its syscall selectors rewritten to the stubs
 			for _, name := range boundaryFiles[d] {
 				src, err := os.ReadFile(filepath.Join(rd, name))
@@ -195,6 +202,10 @@ func OracleSources(verifDir string) ([][2]string, error) {
 	sort.Slice(out, func(i, j int) bool { return out[i][0]+out[i][1] < out[j][0]+out[j][1] })
 	return out, nil
 }
+
+// NoBoundaryRewrite builds the native test binary against the unmodified
+// boundary files (used for the real-kernel validation only).
+var NoBoundaryRewrite bool
 
 // boundaryFiles are compiled, for the native replay only, with their calls
 // into the operating system redirected to the harness stubs (the engine does
@@ -346,6 +357,10 @@ import (
 	"strings"
 	"testing"
 )
+
+func TestVerifKernel(t *testing.T) {
+	vKernelHook()
+}
 
 func TestVerifReplay(t *testing.T) {
 	for _, p := range strings.Split(os.Getenv("VERIF_REPLAY"), ":") {
@@ -807,6 +822,9 @@ func (r *Replayer) binFor(pkg string, race bool) (string, error) {
 	r.bins[key] = bin
 	return bin, nil
 }
+
+// BinFor exposes the native test binary of a harness package.
+func (r *Replayer) BinFor(pkg string) (string, error) { return r.binFor(pkg, false) }
 
 // Run replays the files (all of the same package) natively.
 func (r *Replayer) Run(pkg string, files []string, env ...string) (map[string]*NativeResult, error) {
